@@ -16,7 +16,11 @@ RULE = ("cases = (writer schema, reader schema, datum): writer schemas random ov
         "size, rename type +/- alias (full or unqualified), move a definition to another use site, wrap/unwrap/reorder union, add/remove "
         "branch, change namespace, change kind of a named type, drop default, dict-form primitive) or a deep copy of the writer (15 %); data "
         "boundary-dense from the codec generator (no hints); both schemaless_reader and reader(reader_schema=); hand-written witnesses of every "
-        "known disagreement class; non-trivial = at least one step applied and datum has depth; distinct by (writer, reader, datum)")
+        "known disagreement class; non-trivial = at least one step applied and datum has depth; distinct by (writer, reader, datum). "
+        "corr:resolve-layouts = the same on FOREIGN bytes: writer records containing arrays/maps, a random valid layout of a random value "
+        "(multi-block arrays/maps, negative counts + arbitrary byte sizes, sized and unsized blocks mixed) produced by the model's wire_l, "
+        "reader schemas that drop (75 %: a container-typed field first, at any depth) or keep those fields; schemaless_reader on the bytes and "
+        "reader(reader_schema=) on a container file whose block holds them")
 TRUSTED = ["the writer/reader schemas reach the model as the parsed dicts and the two named_schemas tables the implementation itself built "
            "(schemaless: parse_schema into separate dicts; container: file_reader's own _named_schemas)",
            "the `writer_schema == reader_schema` shortcut of schemaless_reader is evaluated by the harness (Python ==) and passed to the model as 'no reader schema'",
@@ -180,11 +184,12 @@ def impl_class(res):
 
 # ---------------------------------------------------------------- cases
 class Case:
-    __slots__ = ("w_raw", "r_raw", "datum", "steps", "pass_parsed", "suffix", "ropts", "tag")
+    __slots__ = ("w_raw", "r_raw", "datum", "steps", "pass_parsed", "suffix", "ropts", "tag", "layout")
 
     def to_json(self, route=None):
         return dict(writer_schema=self.w_raw, reader_schema=self.r_raw, datum_repr=repr(self.datum), steps=self.steps,
-                    pass_parsed=self.pass_parsed, suffix=self.suffix.hex(), ropts=self.ropts, tag=self.tag, route=route)
+                    pass_parsed=self.pass_parsed, suffix=self.suffix.hex(), ropts=self.ropts, tag=self.tag, route=route,
+                    layout=getattr(self, "layout", None))
 
     @staticmethod
     def from_json(d):
@@ -193,6 +198,7 @@ class Case:
         c.datum = eval(d["datum_repr"], dict(CC.EVAL_ENV))
         c.steps, c.pass_parsed, c.suffix = d.get("steps", []), d.get("pass_parsed", True), bytes.fromhex(d.get("suffix", ""))
         c.ropts, c.tag = d.get("ropts", {}), d.get("tag", "replay")
+        c.layout = d.get("layout")
         return c
 
 
@@ -367,6 +373,142 @@ def prepare(c):
     else:
         out["exprB"] = None
     return out
+
+
+# ---------------------------------------------------------------- foreign layouts (any block partition) read with a reader schema
+def has_container(s, named, seen=()):
+    if isinstance(s, str):
+        return s not in gen.PRIMS and s not in seen and has_container(named[s], named, seen + (s,))
+    if isinstance(s, list):
+        return any(has_container(b, named, seen) for b in s)
+    t = s["type"]
+    if t in ("array", "map"):
+        return True
+    if t in ("record", "error"):
+        return any(has_container(f["type"], named, seen) for f in s["fields"])
+    return False
+
+
+def gen_layout_cases(ctx, n):
+    """(writer with arrays/maps inside records, reader that drops or keeps them at several depths, a random valid layout)"""
+    from . import c03
+    rng = ctx.rng
+    ev = evolve.Evolver(rng)
+    cases, hist = [], {}
+    tries = 0
+    while len(cases) < n and tries < 40 * n:
+        tries += 1
+        try:
+            raw, parsed, named = gen_writer(rng)
+        except RuntimeError:
+            continue
+        if not (isinstance(parsed, dict) and parsed.get("type") == "record" and len(parsed["fields"]) >= 2 and has_container(parsed, named)):
+            continue
+        for _ in range(rng.choice([1, 2, 3])):
+            c = Case()
+            c.w_raw, c.datum = raw, None
+            r = rng.random()
+            try:
+                if r < 0.1:
+                    c.r_raw, c.steps = copy.deepcopy(raw), ["identity"]
+                elif r < 0.75:
+                    c.r_raw, c.steps = ev.evolve(raw, first="remove_container_field")
+                else:
+                    c.r_raw, c.steps = ev.evolve(raw)
+            except Exception:
+                continue
+            try:
+                g = c03.LayoutGen(rng, named)
+                c.layout = g.gen(parsed)
+            except (gen.TooDeep, RecursionError):
+                continue
+            if not g.blocks:
+                continue
+            c.pass_parsed = rng.random() < 0.6
+            c.suffix = bytes(rng.randrange(256) for _ in range(rng.choice([0, 0, 2])))
+            c.ropts, c.tag = {}, "layout"
+            for s in c.steps:
+                k = s.split("@")[0]
+                hist[k] = hist.get(k, 0) + 1
+            cases.append(c)
+    ctx.notes["layout_family_steps"] = dict(sorted(hist.items()))
+    return cases
+
+
+def layout_expr(c):
+    """Gallina expression for a layout case + what the implementation needs (schemas as it will see them)"""
+    import fastavro
+    wnamed, rnamed = {}, {}
+    wparsed = fastavro.parse_schema(copy.deepcopy(c.w_raw), wnamed)
+    rparsed = fastavro.parse_schema(copy.deepcopy(c.r_raw), rnamed)
+    argw = wparsed if c.pass_parsed else copy.deepcopy(c.w_raw)
+    argr = copy.deepcopy(c.r_raw)
+    shortcut = (argw == argr)
+    RA = None if (shortcut or not rparsed) else rparsed
+    e = "run_resolve_layout %s %s %s %s %s %s %s %s" % (G.ropts(**c.ropts), G.env_to_coq(wnamed), G.env_to_coq(rnamed), G.schema_to_coq(wparsed),
+                                                        opt_schema(RA), G.schema_to_coq(rparsed), c.layout, G.hx(c.suffix))
+    eB = None
+    if shortcut:      # the container route never takes the shortcut
+        eB = "run_resolve_layout %s %s %s %s %s %s %s %s" % (G.ropts(**c.ropts), G.env_to_coq(wnamed), G.env_to_coq(rnamed), G.schema_to_coq(wparsed),
+                                                             opt_schema(rparsed), G.schema_to_coq(rparsed), c.layout, G.hx(b""))
+    return e, eB, (wparsed, argw, argr)
+
+
+def run_container_bytes(wparsed, r_raw, payload, ropts):
+    """a container file whose single block holds the foreign bytes [payload] as one record"""
+    import fastavro
+    from .. import container_common as K
+    fo = io.BytesIO()
+    fastavro.writer(fo, wparsed, [])
+    head = fo.getvalue()
+    hl, _, sync = K.split_header(head)
+    data = head[:hl] + K.zz(1) + K.zz(len(payload)) + payload + sync
+    try:
+        out = core.with_timeout(lambda: list(fastavro.reader(io.BytesIO(data), reader_schema=r_raw, **ropts)), 20)
+        if len(out) != 1:
+            return ("raised", "WrongRecordCount", str(len(out)))
+        return ("ok", out[0], 0)
+    except core.Timeout:
+        return ("timeout", None, None)
+    except RecursionError:
+        return ("raised", "RecursionError", "")
+    except Exception as e:
+        return ("raised", type(e).__name__, str(e)[:200])
+
+
+def run_layouts(ctx, n):
+    cases = gen_layout_cases(ctx, n)
+    exprs, meta = [], []
+    for c in cases:
+        try:
+            e, eB, args = layout_expr(c)
+        except Exception:
+            continue
+        meta.append((c, len(exprs), None if eB is None else len(exprs) + 1, args))
+        exprs.append(e)
+        if eB is not None:
+            exprs.append(eB)
+    out = core.coq_eval(exprs, IMPORTS, ctx.workdir, tag="c08l", shard=(60 if ctx.quick() else 150), timeout=900)
+    out = [G.canon_model_text(x) for x in out]
+    skipped_fields = 0
+    for c, iA, iB, (wparsed, argw, argr) in meta:
+        m = out[iA]
+        if not m or not m.startswith("W:"):
+            ctx.violation("corr:resolve-layouts", c.to_json(), impl=None, model=m, signature="C08:model-output-unparsable", found_input=False)
+            continue
+        h, rest = m[2:].split(";", 1)
+        payload = bytes.fromhex(h)
+        key = (json.dumps(c.w_raw, sort_keys=True), json.dumps(c.r_raw, sort_keys=True), c.layout)
+        ctx.count("corr:resolve-layouts", key + ("A",), nontrivial=True)
+        resA = run_schemaless(argw, argr, payload + c.suffix, c.ropts)
+        compare(ctx, c, "schemaless/layout", resA, rest, True, corr="corr:resolve-layouts")
+        ctx.count("corr:resolve-layouts", key + ("B",), nontrivial=True)
+        resB = run_container_bytes(wparsed, copy.deepcopy(c.r_raw), payload, c.ropts)
+        mB = rest if iB is None else out[iB].split(";", 1)[1]
+        compare(ctx, c, "container/layout", resB, mB, False, corr="corr:resolve-layouts")
+        skipped_fields += sum(1 for s in c.steps if s.startswith("remove_"))
+    ctx.notes["layout_family_cases"] = len(meta)
+    ctx.notes["layout_family_removed_fields"] = skipped_fields
 
 
 # ---------------------------------------------------------------- labels for violations
@@ -584,10 +726,10 @@ def classify(c, res, spec):
 
 
 # ---------------------------------------------------------------- the check
-def compare(ctx, c, route, res, mtext, with_rest):
+def compare(ctx, c, route, res, mtext, with_rest, corr="corr:resolve"):
     """res: implementation result; mtext: '<rdec text>;<spec text>'"""
     if mtext is None:
-        ctx.violation("corr:resolve", c.to_json(route), impl=str(res)[:500], model=None, signature="C08:model-not-evaluated", found_input=False)
+        ctx.violation(corr, c.to_json(route), impl=str(res)[:500], model=None, signature="C08:model-not-evaluated", found_input=False)
         return
     rd, spec, zone = mtext.split(";")
     ic = impl_class(res)
@@ -595,7 +737,7 @@ def compare(ctx, c, route, res, mtext, with_rest):
     if zone == "Z1" and default_opts:
         ctx.notes["cases_inside_agreement_zone"] = ctx.notes.get("cases_inside_agreement_zone", 0) + 1
         if rd.split("|")[0].replace("R:", "V:", 1) != spec:
-            ctx.violation("corr:resolve", c.to_json(route), impl=None, model=mtext[:600], signature="C08:model:theorem-C08_factor_zone-contradicted",
+            ctx.violation(corr, c.to_json(route), impl=None, model=mtext[:600], signature="C08:model:theorem-C08_factor_zone-contradicted",
                           found_input=False)
     # ---- the tie: implementation vs rdec
     if rd.startswith("R:"):
@@ -607,7 +749,7 @@ def compare(ctx, c, route, res, mtext, with_rest):
     prop_ok = True
     if default_opts:
         if spec == "FUEL" or rd == "FUEL":
-            ctx.violation("corr:resolve", c.to_json(route), impl=ic, model=mtext[:300], signature="C08:model-out-of-fuel", found_input=False)
+            ctx.violation(corr, c.to_json(route), impl=ic, model=mtext[:300], signature="C08:model-out-of-fuel", found_input=False)
             return
         if spec.startswith("V:"):
             prop_ok = ic == "V" and canon_py(res[1]) == parse_show(spec[2:])
@@ -618,11 +760,11 @@ def compare(ctx, c, route, res, mtext, with_rest):
         if not prop_ok:
             # every deviation recorded so far is reproduced by the model's rdec; one that is not is something new
             sig = classify(c, res, spec) + ("" if tie else ":not-reproduced-by-model-rdec")
-            ctx.violation("corr:resolve", c.to_json(route), impl=(G.show_py(res[1]) if ic == "V" else "%s %s: %s" % (ic, res[1], res[2]))[:1500],
+            ctx.violation(corr, c.to_json(route), impl=(G.show_py(res[1]) if ic == "V" else "%s %s: %s" % (ic, res[1], res[2]))[:1500],
                           model=("specification (resolve): " + spec + " ; model of the code (rdec): " + rd)[:1500], signature=sig, found_input=True,
                           detail="route=%s steps=%s" % (route, c.steps))
     if not tie and prop_ok:
-        ctx.violation("corr:resolve", c.to_json(route), impl=(G.show_py(res[1]) + "|" + str(res[2]) if ic == "V" else "%s %s: %s" % (ic, res[1], res[2]))[:1500],
+        ctx.violation(corr, c.to_json(route), impl=(G.show_py(res[1]) + "|" + str(res[2]) if ic == "V" else "%s %s: %s" % (ic, res[1], res[2]))[:1500],
                       model=("rdec: " + rd)[:1500], signature="C08:model-differs:%s-vs-%s" % (ic, rd[:2]), found_input=False,
                       detail="the implementation differs from the model rdec but agrees with the specification on this case" if default_opts
                       else "reader options: only the tie is compared")
@@ -670,6 +812,7 @@ def run(ctx):
             compare(ctx, c, "container", p["B"], out[index[p["exprB"]]], False)
         else:
             ctx.notes["container_reader_not_constructed"] = ctx.notes.get("container_reader_not_constructed", 0) + 1
+    run_layouts(ctx, 500 if ctx.quick() else 4000)
     ctx.notes["specification_outcomes(schemaless route)"] = hist
     ctx.notes["schemaless_equal_schema_shortcut"] = shortcuts
     for c, p in prepared[len(WITNESSES) * 2::max(1, len(prepared) // 5)]:
@@ -677,8 +820,35 @@ def run(ctx):
                         model=out[index[p["exprA"]]][:200]))
 
 
+def replay_layout(ctx, c):
+    e, eB, (wparsed, argw, argr) = layout_expr(c)
+    out = [G.canon_model_text(x) for x in core.coq_eval([e] + ([eB] if eB else []), IMPORTS, ctx.workdir, tag="rpl", shard=10)]
+    h, rest = out[0][2:].split(";", 1)
+    payload = bytes.fromhex(h)
+    ok = True
+    for route, res, m in [("schemaless/layout", run_schemaless(argw, argr, payload + c.suffix, c.ropts), rest),
+                          ("container/layout", run_container_bytes(wparsed, copy.deepcopy(c.r_raw), payload, c.ropts),
+                           rest if not eB else out[1].split(";", 1)[1])]:
+        rd, spec, zone = m.split(";")
+        ic = impl_class(res)
+        print("[%s] bytes: %s" % (route, payload.hex()[:200]))
+        print("[%s] implementation: %s" % (route, G.show_py(res[1]) if ic == "V" else "%s %s %s" % (ic, res[1], res[2])))
+        print("[%s] model rdec     : %s" % (route, rd[:600]))
+        print("[%s] specification  : %s" % (route, spec[:600]))
+        if spec.startswith("V:"):
+            good = ic == "V" and canon_py(res[1]) == parse_show(spec[2:])
+        elif spec == "ER":
+            good = ic == "ER"
+        else:
+            good = ic in ("EO", "ER")
+        ok = ok and good
+    return ok
+
+
 def replay(ctx, rep):
     c = Case.from_json(rep["case"])
+    if getattr(c, "layout", None):
+        return replay_layout(ctx, c)
     p = prepare(c)
     if p is None:
         print("datum cannot be written under the writer schema")
